@@ -99,7 +99,7 @@ type checker struct {
 	tolerateErr bool
 	// counters
 	belowFloorBogus, belowFloorPanic, belowFloorOther, optRetained, sizeOdd, commitRegressed, queries, errsTolerated int
-	stale                                                                          map[staleKey]struct{}
+	stale                                                                                                            map[staleKey]struct{}
 }
 
 // staleKey identifies an entry version that was overwritten or truncated (by
@@ -390,6 +390,12 @@ func (c *checker) full(ref *RefReplica, rep reporter) (pb.State, bool) {
 	c.bootstrap(ref, rep)
 	hi := ref.Last + uint64(len(ref.Opt)) + 3
 	c.iterate(ref, ref.Floor+1, hi, math.MaxUint64, rep)
+	if ref.Removed || ref.ProbeAll {
+		// nothing may be left anywhere
+		for low := uint64(2); low <= ref.MaxEver; low++ {
+			c.iterate(ref, low, low+1, math.MaxUint64, rep)
+		}
+	}
 	if ref.Floor > 0 {
 		lo := uint64(1)
 		if ref.Floor > 6 {
